@@ -193,12 +193,39 @@ func rulesC03(c *Ctx) {
 		rel := c.Fn(pJ, "releaser", "release")
 		rg := rel.Graph()
 		relF := c.Field(pJ, "releaser", "released")
+		nClose := 0
 		for _, call := range rel.AllCalls(rel.Body, false) {
 			if rel.BuiltinName(call) == "close" {
+				nClose++
 				guards := rg.GuardsAt(rg.VertexOf(call))
 				c.Check(hasAtom(guards, func(a Atom) bool { return !a.Val && rel.IsField(a.E, relF) }), "release:close-once", rel, call, "close(ch) only when not yet released (guards: %s)", atomsString(guards))
+				c.Check(rel.IsField(call.Args[0], c.Field(pJ, "releaser", "ch")) && rel.heldLocal(call)["releaser.mu"], "release:closes-its-channel-under-lock", rel, call, "what is closed is r.ch, with r.mu held")
 			}
 		}
+		c.Pin("close calls in release", nClose, 1)
+		// … and the first release always does close it: on the not-yet-released edge every path passes close(ch) and
+		// released = true (otherwise the dispatcher that waits on ch is never woken)
+		okFirst := false
+		for _, notYet := range rg.edgesWhere(func(a Atom) bool { return !a.Val && rel.IsField(a.E, relF) }) {
+			closes := func(v int) bool {
+				for _, call := range rel.AllCalls(rg.Node(v), false) {
+					if rel.BuiltinName(call) == "close" {
+						return true
+					}
+				}
+				return false
+			}
+			marks := func(v int) bool {
+				for _, w := range Writes(rg.Node(v), false) {
+					if rel.IsField(w.LHS, relF) && w.RHS != nil && exprStr(w.RHS) == "true" {
+						return true
+					}
+				}
+				return false
+			}
+			okFirst = rg.allPathsPass(notYet, closes) && rg.allPathsPass(notYet, marks)
+		}
+		c.Check(okFirst, "release:first-release-closes", rel, nil, "when not yet released, release always closes the channel and records released = true")
 	})
 
 	c.Rule("R-C03-4", "requests enter the queue in read order: one reader goroutine calls acceptRequest synchronously", func() {
